@@ -198,8 +198,6 @@ def r3_bounds(repo):
                       "a store to .bound must copy / substitute a bound that already exists (or clear it) - also the top type "
                       "is a bound: derives from %s"
                       % texts[:6]))
-    if len(stores) < 5 or len(ctor) < 1:
-        raise AnalysisError("bound sites: %d stores, %d constructions" % (len(stores), len(ctor)), rule="C17-R3")
     f = repo.method("src.utils.RandomUtils", "bool", inherited=False)
     r = f.node.body[-1]
     ok = isinstance(r, ast.Return) and isinstance(r.value, ast.Compare) and isinstance(r.value.ops[0], ast.Lt) and \
@@ -373,7 +371,7 @@ def rules():
     return [
         RuleSpec("C17-R1", "origin of use-site projections (all WildCardType construction sites)", 6, r1_projections),
         RuleSpec("C17-R2", "origin of contravariant projections", 8, r2_contravariant),
-        RuleSpec("C17-R3", "origin of type-parameter bounds", 7, r3_bounds),
+        RuleSpec("C17-R3", "origin of type-parameter bounds", 5, r3_bounds),
         RuleSpec("C17-R4", "origin of function type parameters", 4, r4_parameterized_functions),
         RuleSpec("C17-R5", "declaration-site variance only for Kotlin/Scala classes", 6, r5_variance),
         RuleSpec("C17-R6", "switch wiring in src/args.py", 6, r6_wiring),
